@@ -429,9 +429,11 @@ impl<'a> El<'a> {
         // prefer recent handles: selector 0 = newest
         let root = live[live.len() - 1 - ((i[1] as usize * live.len()) >> 8)];
         let n = self.m.node_of(root).t.numel();
+        // seeds of very different magnitudes across the passes of one history (exact powers of two)
+        let scale = [1.0, 1.0, 1.0, 1048576.0, 1.0 / 4096.0, 1.0, 16777216.0, 1.0][(i[4] as usize >> 2) % 8];
         let seed = match i[4] % 4 {
             0 => None,
-            _ => Some(gen_vals(u64::from_le_bytes(*i), n, if self.cfg.exact_only { VKind::Int } else { VKind::Small })),
+            _ => Some(gen_vals(u64::from_le_bytes(*i), n, if self.cfg.exact_only { VKind::Int } else { VKind::Small }).into_iter().map(|v| v * scale).collect()),
         };
         if self.emit(Step::Backward { h: root, seed }) {
             self.n_backward += 1;
